@@ -121,6 +121,14 @@ def _assemble(text, path):
     sh(["as", "--64", "-o", path, "-"], stdin=text.encode(), timeout=60, check=True)
 
 
+def _ar(d, name, members, thin):
+    """ar with relative member names (a thin archive records the path it was given: keep replays relocatable)."""
+    p = Path(d) / name
+    if p.exists():
+        p.unlink()
+    sh(["ar", "rcT" if thin else "rc", name] + list(members), cwd=d, timeout=120, check=True)
+
+
 def emit(cfg, d, variant=0):
     """Create the inputs of cfg in directory d. Returns the list of link-line tokens (relative to d)
     common to all three linkers (without -o / linker-specific flags).
@@ -157,10 +165,10 @@ def emit(cfg, d, variant=0):
                     grp.append(fi + len(grp))
             if k == "member" and startlib:
                 line += ["--start-lib"] + [objs[g] for g in grp] + ["--end-lib"]
-                archive(d / f"lib{fi}.a", [d / objs[g] for g in grp])    # GNU ld has no --start-lib: see ld_line
+                _ar(d, f"lib{fi}.a", [objs[g] for g in grp], False)    # GNU ld has no --start-lib: see ld_line
             else:
                 an = f"lib{fi}.a"
-                archive(d / an, [d / objs[g] for g in grp], thin=thin)
+                _ar(d, an, [objs[g] for g in grp], thin)
                 if k == "wmember":
                     line += ["--whole-archive", an, "--no-whole-archive"]
                 else:
@@ -199,6 +207,7 @@ def ld_line(line):
     return out
 
 
+WILD_TIMEOUT = 120      # links take ~30 ms; the margin is for a machine shared with many other jobs
 COMMON_FLAGS = ["--no-gc-sections", "--allow-shlib-undefined"]
 
 
@@ -235,11 +244,11 @@ def link(linker, line, d, out, threads=None, env=None, extra=None):
         a = COMMON_FLAGS + args
         if threads:
             a.append(f"--threads={threads}")
-        return run_wild(a, cwd=d, env=env, timeout=30, wild=private_wild())
+        return run_wild(a, cwd=d, env=env, timeout=WILD_TIMEOUT, wild=private_wild())
     if linker == "ld":
-        return sh(["ld", "--allow-shlib-undefined", "-z", "noexecstack"] + ld_line(args), cwd=d, timeout=60)
+        return sh(["ld", "--allow-shlib-undefined", "-z", "noexecstack"] + ld_line(args), cwd=d, timeout=300)
     if linker == "lld":
-        return sh(["ld.lld", "--allow-shlib-undefined"] + args, cwd=d, timeout=60)
+        return sh(["ld.lld", "--allow-shlib-undefined"] + args, cwd=d, timeout=300)
     raise ToolError(linker)
 
 
@@ -345,6 +354,10 @@ def observe(path, cfg):
     return {"loaded": loaded, "bind": bind, "needed": needed}
 
 
+import threading
+_retry_lock = threading.Lock()
+
+
 def run_case(cfg, d, linkers=("wild", "ld", "lld"), variant=0, threads=None, env=None):
     """Emit + link + observe. Returns {linker: {"error":..., "loaded":..., "bind":..., "msg":...}}, line."""
     line = emit(cfg, d, variant)
@@ -352,15 +365,34 @@ def run_case(cfg, d, linkers=("wild", "ld", "lld"), variant=0, threads=None, env
     for lk in linkers:
         out = f"out.{lk}"
         r = link(lk, line, d, out, threads=threads if lk == "wild" else None, env=env if lk == "wild" else None)
+        if r.timed_out:
+            # distinguish an overloaded machine from a deadlock: once more, alone, with a long timeout
+            with _retry_lock:
+                r = link(lk, line, d, out, threads=threads if lk == "wild" else None, env=env if lk == "wild" else None)
         ec = error_class(r)
         o = {"error": ec, "rc": r.rc, "msg": (r.err + r.out)[-600:] if ec != "none" else ""}
         if ec == "none":
+            if lk == "wild" and _PATCH_OBSERVATION:
+                _patch_identity(Path(d) / out)
             try:
                 o.update(observe(Path(d) / out, cfg))
             except velf.ElfError as ex:
                 o["error"] = f"bad-output:{ex}"
         res[lk] = o
     return res, line
+
+
+def _patch_identity(path):
+    """Demonstration only: turn the first identity word in the output into the identity of another definition."""
+    data = bytearray(Path(path).read_bytes())
+    pat = struct.pack("<I", ID_BASE >> 8)[:4]
+    for off in range(0, len(data) - 8):
+        w = struct.unpack_from("<Q", data, off)[0]
+        if ID_BASE < w < ID_BASE + 4096 and off % 8 == 0:
+            struct.pack_into("<Q", data, off, w + 16 * 5)     # file index + 5: no such definition
+            Path(path).write_bytes(bytes(data))
+            return True
+    return False
 
 
 def cfg_key(cfg):
@@ -524,8 +556,12 @@ def replay_records(ctx, prop, records, aspects, reference, jobs=8, known_oracle_
                 elif st == "wild-abnormal":
                     r = info["raw"]["wild"]
                     key = f"abnormal:{r['error']}"
-                    ctx.verdict.report(key, f"wild ended abnormally ({r['error']}, rc={r['rc']}) on {info['line']}: {r['msg'][-200:]}",
-                                       lambda: save_replay(prop, f"{key.replace(':', '-')}-{info['idx']}", d, meta=info))
+                    stats.setdefault("wild_abnormal", {})
+                    stats["wild_abnormal"][r["error"]] = stats["wild_abnormal"].get(r["error"], 0) + 1
+                    if info["expect"]["error"] == "none" or r["error"] == "hang":
+                        # the rule says this links and every reference binds; wild produced no program
+                        ctx.verdict.report(key, f"wild ended abnormally ({r['error']}, rc={r['rc']}) on {info['line']}: {r['msg'][-200:]}",
+                                           lambda: save_replay(prop, f"{key.replace(':', '-')}-{info['idx']}", d, meta=info))
                 else:
                     key = info["key"]
                     stats["mismatch"][key] = stats["mismatch"].get(key, 0) + 1
@@ -606,11 +642,13 @@ def run_plan(ctx, prop, plan, aspects, reference, oracle_known=None, skip_load_d
     cov = {"samples": []}
     states = trans = replayed = 0
     runs = []
+    demo_pool = []
     for cfg, to, k in plan:
         r, recs = tlc_records(cfg, to)
         states += r.distinct
         trans += r.generated
         chosen = sample(recs, ctx.seed, k)
+        demo_pool += [rec for _, rec in chosen[:400]]
         log(f"{cfg}: {r.distinct} states ({r.wall:.0f}s), {len(recs)} configurations, replaying {len(chosen)}")
         st = replay_records(ctx, prop, chosen, aspects, reference, jobs=8, known_oracle_classes=oracle_known,
                             skip_load_divergent=skip_load_divergent, label="-" + Path(cfg).stem.split("_", 1)[-1])
@@ -620,9 +658,56 @@ def run_plan(ctx, prop, plan, aspects, reference, oracle_known=None, skip_load_d
         cov["samples"] += st["samples"]
     runs.append(coverage_run())
     runs.append(racy_must_fail())
+    cov["binding_demo"] = binding_demo(ctx, prop, demo_pool, aspects, reference)
     cov["states"] = states
     cov["transitions"] = trans
     cov["traces_validated_against_impl"] = replayed
     cov["tlc_runs"] = runs
     cov["samples"] = trim_samples(cov["samples"], 3, 900)
     return cov
+
+
+def binding_demo(ctx, prop, pool, aspects, reference):
+    """Anti-vacuity of the binding: a configuration wild gets right must be reported as a mismatch once the
+    expectation (one predicted binding / the predicted error class) or the observation (one byte of the
+    identity word in wild's output) is corrupted."""
+    import copy
+    from .common import scratch
+    cand = None
+    for rec in pool:
+        b = rec["expect"].get("bind")
+        if rec["expect"]["error"] == "none" and isinstance(b, dict) and any(v.startswith("d") and v[1].isdigit() for v in b.values()) \
+                and not rec.get("causes") and not rec.get("loadDiv") and not rec.get("visShared") and not rec.get("commonLazy"):
+            cand = rec
+            break
+    if cand is None:
+        raise ToolError("binding demonstration: no suitable configuration in the sample")
+    out = []
+    with scratch(f"{prop.lower()}-demo") as top:
+        def go(rec, name, patch=False):
+            d = top / name
+            d.mkdir()
+            global _PATCH_OBSERVATION
+            _PATCH_OBSERVATION = patch
+            try:
+                return replay_one(rec, d, 0, ctx.seed, ("error", "loaded", "bind"), reference)
+            finally:
+                _PATCH_OBSERVATION = False
+        base = go(cand, "base")
+        if base["status"] not in ("ok", "ok-oracles-differ"):
+            raise ToolError(f"binding demonstration: base case not ok: {base['status']}")
+        r1 = copy.deepcopy(cand)
+        k = next(k for k, v in r1["expect"]["bind"].items() if v.startswith("d") and v[1].isdigit())
+        r1["expect"]["bind"][k] = "zero"
+        r2 = copy.deepcopy(cand)
+        r2["expect"] = {"error": "duplicate", "loaded": r2["expect"]["loaded"], "bind": {}}
+        for label, info in (("flip-predicted-binding", go(r1, "m1")), ("flip-predicted-error", go(r2, "m2")),
+                            ("patch-identity-word-in-output", go(cand, "m3", patch=True))):
+            caught = info["status"] in ("mismatch", "undecided", "spec-vs-oracles") and not same(info["wild"], info["expect"], ("error", "loaded", "bind"))
+            out.append({"mutation": label, "status": info["status"], "key": info.get("key"), "caught": caught})
+            if not caught:
+                raise ToolError(f"binding demonstration failed: {label} was not noticed ({info['status']})")
+    return out
+
+
+_PATCH_OBSERVATION = False
